@@ -52,6 +52,9 @@ type Gen struct {
 	queue        []Op  // operations that must come next
 	qpend        []*pending // what the generator must learn from each queued operation's reply (nil: nothing)
 	unstableFile *gobj // a file with acknowledged unstable data not yet committed
+	free         uint64 // free data blocks as the server reported them after the last call (an observation, like a reply)
+	haveFree     bool
+	nameCtr      int
 }
 
 type pending struct {
@@ -119,6 +122,15 @@ func (g *Gen) weighted() string {
 }
 
 func (g *Gen) newName(d *gobj) string {
+	if g.p.Steer["longnames"] && g.rng.Intn(8) != 0 {
+		// distinct names a little below the announced limit
+		n := int(g.nmax) - g.rng.Intn(6)
+		if n < 6 {
+			n = 6
+		}
+		g.nameCtr++
+		return strings.Repeat("L", n-5) + fmt.Sprintf("%05d", g.nameCtr)
+	}
 	switch g.rng.Intn(12) {
 	case 0: // long legal name around the announced limit
 		n := int(g.nmax) - g.rng.Intn(3)
@@ -406,6 +418,55 @@ func (g *Gen) try(k string) (Op, bool) {
 		k := uint64(1 + g.rng.Intn(3))
 		o = Op{Proc: "setattr", H: g.filler.sym, HasSize: true, Size: (g.filler.size/4096 - k) * 4096}
 		g.pend = &pending{target: g.filler}
+	case "hugesymlink": // a link target larger than one transaction can log: the commit itself must fail cleanly
+		d := g.pick(2)
+		n := uint64(512+g.rng.Intn(120)) * 4096
+		if g.rng.Intn(3) == 0 {
+			n = g.wtmax + 1 + uint64(g.rng.Intn(100000))
+		}
+		o = Op{Proc: "symlink", H: d.sym, Name: g.newName(d), Data: DataSpec{Pat: true, Len: n, Seed: uint64(g.rng.Intn(200))}}
+		g.pend = &pending{parent: d}
+	case "oneleft": // bring the disk to exactly one or two free blocks, then write into an index range of a small file
+		if g.filler == nil || g.filler.dead || !g.fillDone || !g.haveFree || len(g.queue) > 0 {
+			return o, false
+		}
+		var f *gobj
+		for _, x := range g.live {
+			if x.kind == 1 && x != g.filler && x.size <= 8*4096 {
+				f = x
+				break
+			}
+		}
+		if f == nil {
+			return o, false
+		}
+		want := uint64(1 + g.rng.Intn(2))
+		offs := []uint64{8, 9, 100, 519, 520, 521, 1032, 1033}
+		n := uint64(1 + g.rng.Intn(5000))
+		iw := Op{Proc: "write", H: f.sym, Off: offs[g.rng.Intn(len(offs))]*4096 + uint64(g.rng.Intn(2))*100, Cnt: n, Stable: 2,
+			Data: DataSpec{Pat: true, Len: n, Seed: uint64(g.rng.Intn(250))}}
+		switch {
+		case g.free == want:
+			o = iw
+			g.pend = &pending{target: f, tag: "indwrite"}
+		case g.free < want:
+			if g.filler.size < (want-g.free+1)*4096 {
+				return o, false
+			}
+			o = Op{Proc: "setattr", H: g.filler.sym, HasSize: true, Size: (g.filler.size/4096 - (want - g.free)) * 4096}
+			g.pend = &pending{target: g.filler}
+			g.enq(&pending{target: f, tag: "indwrite"}, iw)
+		default:
+			k := (g.free - want) * 4096
+			if k > g.wtmax/4096*4096 {
+				k = g.wtmax / 4096 * 4096
+			}
+			o = Op{Proc: "write", H: g.filler.sym, Off: (g.filler.size + 4095) / 4096 * 4096, Cnt: k, Stable: 2, Data: DataSpec{Pat: true, Len: k, Seed: uint64(g.rng.Intn(250))}}
+			g.pend = &pending{target: g.filler}
+			if k == (g.free-want)*4096 {
+				g.enq(&pending{target: f, tag: "indwrite"}, iw)
+			}
+		}
 	case "indwrite": // a small write in the indirect / double-indirect range of a small file
 		f := g.pick(1)
 		if f == nil || f == g.filler {
